@@ -81,6 +81,14 @@ def judge(value, columns):
     d = _judge_once(value, columns)
     if d:
         return d
+    if isinstance(value, FmtStr):
+        # the same value after the program has USED it (displayed it, sliced it, called splice / append / ... on it and thrown the results
+        # away): whatever such a use leaves behind on the object, it wraps as before
+        from bounded.common import fill_caches
+        fill_caches(value)
+        d = _judge_once(value, columns)
+        if d:
+            return "after the value had been used (read-only operations on it, results thrown away): " + d
     try:
         first = linesplit(value, columns)
         if isinstance(first, list):
